@@ -239,7 +239,7 @@ async fn multi_key_shapes() -> Acc {
 }
 
 pub fn run(cli: &Cli) -> (Value, Vec<Violation>) {
-    let thorough = cli.thorough();
+    let thorough = cli.level() >= 1;
     // keys part
     let (kcov, mut viol) = vh::c09keys::run_c09_keys(cli);
     let keys = Arc::new(slot_keys());
@@ -283,7 +283,7 @@ pub fn run(cli: &Cli) -> (Value, Vec<Violation>) {
     }
     let mut accs: Vec<Acc> = hs.into_iter().map(|h| h.join().expect("join")).collect();
     // all-slot sweeps on a sample of layouts (thorough: 200, quick: 4), and active redirection variant
-    let sweep: Vec<Vec<Owner>> = layouts.iter().step_by(layouts.len() / if thorough { 200 } else { 4 }).cloned().collect();
+    let sweep: Vec<Vec<Owner>> = layouts.iter().step_by(layouts.len() / [4usize, 200, 1000][cli.level().min(2)]).cloned().collect();
     let mut hs = vec![];
     for (wi, part) in sweep.chunks((sweep.len() + 15) / 16).enumerate() {
         let part = part.to_vec();
